@@ -9,6 +9,8 @@ kinds:  hole   n only changes a number written in the file            magnitudes
         grow   n is a nesting depth / item count: file size ~ n       1, 10, 100, 1000 (quick) .. 10^4, 10^5
         exp    n = expansion factor 10^k of an entity bomb            10^1 .. 10^6 (quick) .. 10^9
         one    no hole (cycles, external entities)                    1
+        <host>-part<j>-entity-bomb (kind exp, PART_BOMB_MAGS): the entity bomb in member j of the host's package (every XML member of
+        docx / pptx / xlsx / odt / ods / odp / odg / epub, one template each); expansion 10^3, 10^6 (quick) + 10^7, 10^9
         mbox-empty-* (kind grow, MBOX_EMPTY): separator lines that delimit EMPTY messages, five layouts, n = 1..10^4 quick / ..10^5
         archive-of-zeros templates (ZMAGS / TMAGS): n also = per-member limit, limit + 1, 10^8 in the quick tier
         .doc picture templates (kind hole, own lattice DOC_PIC_MAGS): n = number of picture headers inside one declared picture
@@ -634,6 +636,75 @@ def _(n):
     members = [(k, v.replace(XMLDECL.encode(), (XMLDECL + pro.replace(" x ", " package ")).encode()).replace(b"Ztitle", b"Ztitle" + ref.encode())
                 if k.endswith(".opf") else v) for k, v in members]
     return name, mkzip(members)
+
+
+# ---- the entity bomb in EVERY XML part of every ZIP package (not only the main part): content types, relationships, document
+# properties, styles, meta, manifest, shared strings, workbook / presentation, container / OPF / chapter.  The DOCTYPE follows the XML
+# declaration of ONE member; the reference &e<k>; is the last text inside that member's root element.  Which parser reads which part
+# is the library's business: every part that is parsed at all must refuse the declarations or at least not materialise them.
+_CORE = (XMLDECL + '<cp:coreProperties xmlns:cp="http://schemas.openxmlformats.org/package/2006/metadata/core-properties" '
+         'xmlns:dc="http://purl.org/dc/elements/1.1/"><dc:title>Ztitle</dc:title><dc:creator>Zcdfgh</dc:creator></cp:coreProperties>')
+_ODF_STYLES = (f'{XMLDECL}<office:document-styles {ODF_NS} office:version="1.2"><office:master-styles/></office:document-styles>')
+_ODF_META = (XMLDECL + '<office:document-meta xmlns:office="urn:oasis:names:tc:opendocument:xmlns:office:1.0" '
+             'xmlns:dc="http://purl.org/dc/elements/1.1/" office:version="1.2"><office:meta><dc:title>Ztitle</dc:title></office:meta>'
+             '</office:document-meta>')
+PART_BOMB_MAGS = ([10 ** 3, 10 ** 6], [10 ** 3, 10 ** 6, 10 ** 7, 10 ** 9])
+
+
+def _with_members(pkg, extra):
+    name, data = pkg
+    with zipfile.ZipFile(io.BytesIO(data)) as z:
+        members = [(i.filename, z.read(i)) for i in z.infolist()]
+    return name, members + [(k, v.encode()) for k, v in extra]
+
+
+def _part_hosts():
+    odf_extra = (("styles.xml", _ODF_STYLES), ("meta.xml", _ODF_META))
+    h = {
+        "docx": lambda: _with_members(docx_pkg(_wp("Bbcdfg"), extra=(("word/styles.xml", f'{XMLDECL}<w:styles {W_NS}></w:styles>'),),
+                                               doc_rels=REL.format(i="rId9", t="styles", g="styles.xml")), [("docProps/core.xml", _CORE)]),
+        "pptx": lambda: _with_members(pptx_pkg(_sp("Bbcdfg")), [("docProps/core.xml", _CORE)]),
+        "xlsx": lambda: _with_members(xlsx_pkg('<sheetData><row r="1"><c r="A1" t="s"><v>0</v></c></row></sheetData>',
+                                               sst=f'<sst {S_NS.split(" ")[0]} count="1" uniqueCount="1"><si><t>Cbcdfg</t></si></sst>'),
+                                      [("docProps/core.xml", _CORE)]),
+        "odt": lambda: _with_members(odf_pkg("odt", "<text:p>Bbcdfg</text:p>", extra=odf_extra), []),
+        "ods": lambda: _with_members(odf_pkg("ods", '<table:table table:name="Nbcdfg"><table:table-row><table:table-cell office:value-type="string">'
+                                                    '<text:p>Cbcdfg</text:p></table:table-cell></table:table-row></table:table>', extra=odf_extra), []),
+        "odp": lambda: _with_members(odf_pkg("odp", _frame("<text:p>Bbcdfg</text:p>"), extra=odf_extra), []),
+        "odg": lambda: _with_members(odf_pkg("odg", _frame("<text:p>Bbcdfg</text:p>"), extra=odf_extra), []),
+        "epub": lambda: _with_members(_epub(_xhtml("<p>Bbcdfg</p>")), []),
+    }
+    return h
+
+
+def _bomb_in_part(members, part, n):
+    pro, ref = laughs(n)
+    decl = XMLDECL.encode()
+    out = []
+    for k, v in members:
+        if k == part:
+            cut = v.rfind(b"</")
+            v = v[:cut] + ref.encode() + v[cut:]
+            v = v.replace(decl, decl + pro.encode(), 1)
+        out.append((k, v))
+    return out
+
+
+def _mk_part_bombs():
+    for host, plain in _part_hosts().items():
+        name, members = plain()
+        for j, (part, v) in enumerate(members):
+            if not v.startswith(XMLDECL.encode()) or v.rfind(b"</") < 0:
+                continue                                   # mimetype and other non-XML members
+
+            def fn(n, plain=plain, part=part):
+                name, members = plain()
+                return name, mkzip(_bomb_in_part(members, part, n), stored=("mimetype",))
+            template(f"{host}-part{j}-entity-bomb", "exp", f"{host.upper()} package member {part}: internal entity bomb expanding to n characters, "
+                                                           f"referenced as the last text of the member's root element", expect="any", mags=PART_BOMB_MAGS)(fn)
+
+
+_mk_part_bombs()
 
 
 def _mhtml(html):
